@@ -2,16 +2,283 @@
 //! reached through the `FromScratch` construction (feature `testing` of midnight-circuits).
 
 use midnight_circuits::{
-    field::{decomposition::chip::P2RDecompositionChip, AssignedBounded, NativeChip, NativeGadget},
+    field::{
+        decomposition::{chip::{P2RDecompositionChip, P2RDecompositionConfig}, instructions::CoreDecompositionInstructions},
+        AssignedBounded, NativeChip, NativeGadget,
+    },
     instructions::*,
+    testing_utils::FromScratch,
+    ComposableChip,
     types::{AssignedBit, AssignedNative},
+    vec::{vector_gadget::VectorGadget, AssignedVector},
 };
-use midnight_proofs::{circuit::{Layouter, Value}, plonk::Error};
+use midnight_proofs::{circuit::{Layouter, Value}, plonk::{Column, ConstraintSystem, Error, Instance}};
 use num_bigint::BigUint;
 use num_traits::One;
 use vgad::{val::*, Exposer, Judgement, ScratchCase, F};
 
 pub type NG = NativeGadget<F, P2RDecompositionChip<F>, NativeChip<F>>;
+
+/// The from-scratch native gadget together with the two components built on the same
+/// configuration that have a public interface of their own: the core decomposition chip
+/// (`CoreDecompositionInstructions`) and the vector gadget (`VectorInstructions`).
+#[derive(Clone, Debug)]
+pub struct NgX {
+    pub ng: NG,
+    pub dec: P2RDecompositionChip<F>,
+    pub vg: VectorGadget<F>,
+}
+
+impl FromScratch<F> for NgX {
+    type Config = P2RDecompositionConfig;
+    fn new_from_scratch(config: &Self::Config) -> Self {
+        // as NativeGadget::new_from_scratch does it, keeping a handle on the decomposition chip
+        // (its clone shares the set of queried table tags, which decides what the table holds)
+        let dec = P2RDecompositionChip::new(config, &8);
+        let ng = NG::new(dec.clone(), NativeChip::new_from_scratch(config.native_config()));
+        let vg = VectorGadget::new(&ng);
+        NgX { ng, dec, vg }
+    }
+    fn configure_from_scratch(meta: &mut ConstraintSystem<F>, instance_columns: &[Column<Instance>; 2]) -> Self::Config {
+        NG::configure_from_scratch(meta, instance_columns)
+    }
+    fn load_from_scratch(&self, layouter: &mut impl Layouter<F>) -> Result<(), Error> {
+        self.ng.native_chip.load_from_scratch(layouter)?;
+        self.dec.load(layouter)
+    }
+}
+
+impl PublicInputInstructions<F, AssignedNative<F>> for NgX {
+    fn as_public_input(&self, l: &mut impl Layouter<F>, x: &AssignedNative<F>) -> Result<Vec<AssignedNative<F>>, Error> {
+        self.ng.as_public_input(l, x)
+    }
+    fn constrain_as_public_input(&self, l: &mut impl Layouter<F>, x: &AssignedNative<F>) -> Result<(), Error> {
+        self.ng.constrain_as_public_input(l, x)
+    }
+    fn assign_as_public_input(&self, l: &mut impl Layouter<F>, v: Value<F>) -> Result<AssignedNative<F>, Error> {
+        self.ng.assign_as_public_input(l, v)
+    }
+}
+
+/// (M, A, L) instantiations of the vector gadget: buffer size, alignment, resize target.
+/// Alignments 1..7 including the non-powers of two; buffers of two and three chunks.
+pub const VSHAPES: &[(usize, usize)] = &[(6, 3), (9, 3), (10, 5), (12, 6), (8, 4), (6, 2), (3, 1), (14, 7)];
+
+macro_rules! vdispatch {
+    ($m:expr, $a:expr, $f:ident, $($args:expr),*) => {
+        match ($m, $a) {
+            (6, 3) => $f::<6, 3, 9, _>($($args),*),
+            (9, 3) => $f::<9, 3, 12, _>($($args),*),
+            (10, 5) => $f::<10, 5, 15, _>($($args),*),
+            (12, 6) => $f::<12, 6, 18, _>($($args),*),
+            (8, 4) => $f::<8, 4, 12, _>($($args),*),
+            (6, 2) => $f::<6, 2, 8, _>($($args),*),
+            (3, 1) => $f::<3, 1, 4, _>($($args),*),
+            (14, 7) => $f::<14, 7, 21, _>($($args),*),
+            _ => unreachable!("vector shape not instantiated"),
+        }
+    };
+}
+
+/// data range of a payload of `len` elements in a buffer of `m` cells aligned to `a`
+/// (written from the documentation of `AssignedVector`, not from `get_lims`)
+pub fn vlims(m: usize, a: usize, len: usize) -> (usize, usize) {
+    let back_pad = (a - len % a) % a;
+    (m - len - back_pad, m - back_pad)
+}
+
+#[derive(Clone, Debug, PartialEq)]
+pub enum VKind {
+    /// get_limits
+    Limits,
+    /// padding_flag
+    Pad,
+    /// trim_beginning(n), then is_equal_to_fixed(expected), get_limits
+    Trim(usize),
+    /// trim_beginning(n1) then trim_beginning(n2)
+    Trim2(usize, usize),
+    /// resize::<L>, then is_equal_to_fixed(payload), get_limits
+    Resize,
+    /// is_equal / is_not_equal of the payloads ins[..split] and ins[split..]
+    Eq(usize),
+    /// is_equal_to_fixed / is_not_equal_to_fixed of ins[..split] against the constant ins[split..]
+    EqFixed(usize),
+    /// assert_equal of the two payloads (satisfiable iff equal)
+    AssertEq(usize),
+    /// assert_not_equal_to_fixed
+    AssertNeqFixed(usize),
+}
+
+fn vsynth<const M: usize, const A: usize, const LL: usize, L: Layouter<F>>(kind: &VKind, ins: &[F], c: &NgX, l: &mut L, ex: &Exposer) -> Result<(), Error> {
+    type V<const M: usize, const A: usize> = AssignedVector<F, AssignedNative<F>, M, A>;
+    let (ng, vg) = (&c.ng, &c.vg);
+    // a payload is assigned through the gadget and pinned to its value with assert_equal_to_fixed
+    // (one native assert_equal_to_fixed per data cell and one for the length): the buffer cells
+    // are private to the crate, so this is how the inputs are bound to the case
+    let pinned = |l: &mut L, p: &[F]| -> Result<V<M, A>, Error> {
+        let v: V<M, A> = vg.assign(l, Value::known(p.to_vec()))?;
+        vg.assert_equal_to_fixed(l, &v, p.to_vec())?;
+        Ok(v)
+    };
+    let lim_out = |l: &mut L, s: &AssignedNative<F>, e: &AssignedNative<F>| -> Result<(), Error> {
+        ex.output(ng, l, s)?;
+        ex.output(ng, l, e)
+    };
+    match kind {
+        VKind::Limits => {
+            let v = pinned(l, ins)?;
+            let (s, e) = vg.get_limits(l, &v)?;
+            lim_out(l, &s, &e)?;
+        }
+        VKind::Pad => {
+            let v = pinned(l, ins)?;
+            let flags: [AssignedBit<F>; M] = vg.padding_flag(l, &v)?;
+            for b in flags.iter() {
+                ex.output(ng, l, b)?;
+            }
+        }
+        VKind::Trim(n) => {
+            let v = pinned(l, ins)?;
+            let t: V<M, A> = vg.trim_beginning(l, &v, *n)?;
+            let exp: Vec<F> = ins.iter().skip(*n).copied().collect();
+            let b = vg.is_equal_to_fixed(l, &t, exp)?;
+            ex.output(ng, l, &b)?;
+            let (s, e) = vg.get_limits(l, &t)?;
+            lim_out(l, &s, &e)?;
+        }
+        VKind::Trim2(n1, n2) => {
+            let v = pinned(l, ins)?;
+            let t: V<M, A> = vg.trim_beginning(l, &v, *n1)?;
+            let t: V<M, A> = vg.trim_beginning(l, &t, *n2)?;
+            let exp: Vec<F> = ins.iter().skip(*n1 + *n2).copied().collect();
+            let b = vg.is_equal_to_fixed(l, &t, exp)?;
+            ex.output(ng, l, &b)?;
+            let (s, e) = vg.get_limits(l, &t)?;
+            lim_out(l, &s, &e)?;
+        }
+        VKind::Resize => {
+            let v = pinned(l, ins)?;
+            let r: V<LL, A> = VectorInstructions::<F, AssignedNative<F>, M, A>::resize::<LL>(vg, l, v)?;
+            let b = vg.is_equal_to_fixed(l, &r, ins.to_vec())?;
+            ex.output(ng, l, &b)?;
+            let (s, e) = vg.get_limits(l, &r)?;
+            lim_out(l, &s, &e)?;
+        }
+        VKind::Eq(split) => {
+            let x = pinned(l, &ins[..*split])?;
+            let y = pinned(l, &ins[*split..])?;
+            let b = vg.is_equal(l, &x, &y)?;
+            ex.output(ng, l, &b)?;
+            let nb = vg.is_not_equal(l, &x, &y)?;
+            ex.output(ng, l, &nb)?;
+        }
+        VKind::EqFixed(split) => {
+            let x = pinned(l, &ins[..*split])?;
+            let b = vg.is_equal_to_fixed(l, &x, ins[*split..].to_vec())?;
+            ex.output(ng, l, &b)?;
+            let nb = vg.is_not_equal_to_fixed(l, &x, ins[*split..].to_vec())?;
+            ex.output(ng, l, &nb)?;
+        }
+        VKind::AssertEq(split) => {
+            let x = pinned(l, &ins[..*split])?;
+            let y = pinned(l, &ins[*split..])?;
+            vg.assert_equal(l, &x, &y)?;
+        }
+        VKind::AssertNeqFixed(split) => {
+            let x = pinned(l, &ins[..*split])?;
+            vg.assert_not_equal_to_fixed(l, &x, ins[*split..].to_vec())?;
+        }
+    }
+    Ok(())
+}
+
+/// None = outside the domain (must be unsatisfiable); the outputs otherwise
+pub fn vreference(m: usize, a: usize, kind: &VKind, ins: &[F]) -> Option<Vec<F>> {
+    let fu = |v: usize| F::from(v as u64);
+    let lims = |mm: usize, len: usize| -> Vec<F> {
+        let (s, e) = vlims(mm, a, len);
+        vec![fu(s), fu(e)]
+    };
+    let two = |split: &usize| -> Option<(Vec<F>, Vec<F>)> {
+        if *split > m || ins.len() - *split > m {
+            return None;
+        }
+        Some((ins[..*split].to_vec(), ins[*split..].to_vec()))
+    };
+    match kind {
+        VKind::Eq(_) | VKind::EqFixed(_) | VKind::AssertEq(_) | VKind::AssertNeqFixed(_) => {}
+        _ => {
+            if ins.len() > m {
+                return None;
+            }
+        }
+    }
+    Some(match kind {
+        VKind::Limits => lims(m, ins.len()),
+        VKind::Pad => {
+            let (s, e) = vlims(m, a, ins.len());
+            (0..m).map(|i| fb(i < s || i >= e)).collect()
+        }
+        VKind::Trim(n) => {
+            if *n > ins.len() {
+                return None;
+            }
+            let mut o = vec![fb(true)];
+            o.extend(lims(m, ins.len() - n));
+            o
+        }
+        VKind::Trim2(n1, n2) => {
+            if n1 + n2 > ins.len() {
+                return None;
+            }
+            let mut o = vec![fb(true)];
+            o.extend(lims(m, ins.len() - n1 - n2));
+            o
+        }
+        VKind::Resize => {
+            let mut o = vec![fb(true)];
+            o.extend(lims(m + a, ins.len()));
+            o
+        }
+        VKind::Eq(s) | VKind::EqFixed(s) => {
+            let (x, y) = two(s)?;
+            vec![fb(x == y), fb(x != y)]
+        }
+        VKind::AssertEq(s) => {
+            let (x, y) = two(s)?;
+            if x != y {
+                return None;
+            }
+            vec![]
+        }
+        VKind::AssertNeqFixed(s) => {
+            let (x, y) = two(s)?;
+            if x == y {
+                return None;
+            }
+            vec![]
+        }
+    })
+}
+
+/// limbs of x for decompose_fixed_limb_size(bit_length, limb_size); None if x >= 2^bit_length
+pub fn dec_reference(bit_length: usize, limb_size: usize, x: &BigUint) -> Option<Vec<F>> {
+    if x.bits() as usize > bit_length {
+        return None;
+    }
+    let mut sizes = vec![limb_size; bit_length / limb_size];
+    if bit_length % limb_size != 0 {
+        sizes.push(bit_length % limb_size);
+    }
+    let mut out = vec![];
+    let mut shift = 0usize;
+    for s in sizes {
+        let mask = (BigUint::one() << s) - BigUint::one();
+        out.push(from_big(&((x >> shift) & mask)));
+        shift += s;
+    }
+    Some(out)
+}
 
 #[derive(Clone, Debug, PartialEq)]
 pub enum SOp {
@@ -29,15 +296,30 @@ pub enum SOp {
     /// assert_lower_than_fixed(x, B) first (records a bound for the cell), then
     /// bounded_of_element(n) and lower_than_fixed(y): exercises the bound cache
     CachedLtFixed(BigUint, usize, F),
+    /// CoreDecompositionInstructions::decompose_fixed_limb_size(x, bit_length, limb_size) on the
+    /// decomposition chip itself: limb sizes on both sides of the table width (8), bit lengths
+    /// that are and are not multiples of the limb size
+    DecFixed(usize, usize),
+    /// vector gadget operation on AssignedVector<_, AssignedNative, M, A>: (M, A, kind); the
+    /// inputs are the payload(s)
+    Vec(usize, usize, VKind),
 }
 
 impl SOp {
     pub fn name(&self) -> String {
-        format!("NG::{}", format!("{self:?}").split('(').next().unwrap())
+        match self {
+            SOp::Vec(_, _, k) => format!("Vec::{}", format!("{k:?}").split('(').next().unwrap()),
+            SOp::DecFixed(..) => "Dec::DecFixed".to_string(),
+            _ => format!("NG::{}", format!("{self:?}").split('(').next().unwrap()),
+        }
+    }
+    pub fn is_vec(&self) -> bool {
+        matches!(self, SOp::Vec(..))
     }
     pub fn arity(&self) -> usize {
         match self {
             SOp::Lt(..) | SOp::Gt(..) | SOp::Leq(..) | SOp::Geq(..) => 2,
+            SOp::Vec(..) => 0,
             _ => 1,
         }
     }
@@ -51,6 +333,9 @@ pub struct SCase {
 
 /// None = outside the domain (must be unsatisfiable)
 pub fn reference(op: &SOp, ins: &[F]) -> Option<Vec<F>> {
+    if let SOp::Vec(m, a, kind) = op {
+        return vreference(*m, *a, kind, ins);
+    }
     let x = to_big(&ins[0]);
     let fits = |v: &BigUint, n: usize| v.bits() as usize <= n;
     Some(match op {
@@ -92,11 +377,13 @@ pub fn reference(op: &SOp, ins: &[F]) -> Option<Vec<F>> {
             }
             vec![fb(x < to_big(y))]
         }
+        SOp::DecFixed(bl, ls) => return dec_reference(*bl, *ls, &x),
+        SOp::Vec(..) => unreachable!(),
     })
 }
 
 impl ScratchCase for SCase {
-    type Chip = NG;
+    type Chip = NgX;
     fn key(&self) -> String {
         format!("{:?}[{}]", self.op, self.ins.iter().map(hex).collect::<Vec<_>>().join(","))
     }
@@ -107,6 +394,24 @@ impl ScratchCase for SCase {
         reference(&self.op, &self.ins).is_some()
     }
     fn judge(&self, ins: &[Vec<F>], outs: &[Vec<F>]) -> Judgement {
+        if self.op.is_vec() {
+            // the payloads are pinned inside the circuit (see vsynth), nothing is exposed as input
+            if !ins.is_empty() {
+                return Judgement::Wrong("unexpected input exposure".into());
+            }
+            let Some(exp) = reference(&self.op, &self.ins) else {
+                return Judgement::Wrong("the case is outside the operation's domain".into());
+            };
+            if outs.len() != exp.len() || outs.iter().any(|v| v.len() != 1) {
+                return Judgement::Wrong(format!("unexpected output exposure shape ({} values, expected {})", outs.len(), exp.len()));
+            }
+            for (i, (o, e)) in outs.iter().zip(&exp).enumerate() {
+                if o[0] != *e {
+                    return Judgement::Wrong(format!("output {i} is {} but the reference says {}", hex(&o[0]), hex(e)));
+                }
+            }
+            return Judgement::Holds;
+        }
         if ins.len() != self.op.arity() || ins.iter().any(|v| v.len() != 1) {
             return Judgement::Wrong("unexpected input exposure shape".into());
         }
@@ -124,7 +429,11 @@ impl ScratchCase for SCase {
         }
         Judgement::Holds
     }
-    fn synth<L: Layouter<F>>(&self, ng: &NG, l: &mut L, ex: &Exposer) -> Result<(), Error> {
+    fn synth<L: Layouter<F>>(&self, chip: &NgX, l: &mut L, ex: &Exposer) -> Result<(), Error> {
+        if let SOp::Vec(m, a, kind) = &self.op {
+            return vdispatch!(*m, *a, vsynth, kind, &self.ins, chip, l, ex);
+        }
+        let ng = &chip.ng;
         let xs: Vec<AssignedNative<F>> = self.ins.iter().map(|v| ng.assign(l, Value::known(*v))).collect::<Result<_, _>>()?;
         for x in &xs {
             ex.input(ng, l, x)?;
@@ -163,6 +472,13 @@ impl ScratchCase for SCase {
                 let r = ng.lower_than_fixed(l, &b, *y)?;
                 bit_out(l, r)?;
             }
+            SOp::DecFixed(bl, ls) => {
+                let limbs = chip.dec.decompose_fixed_limb_size(l, &xs[0], *bl, *ls)?;
+                for y in &limbs {
+                    ex.output(ng, l, y)?;
+                }
+            }
+            SOp::Vec(..) => unreachable!(),
         }
         Ok(())
     }
@@ -189,14 +505,95 @@ pub fn sop_list() -> Vec<SOp> {
     for (bound, n, y) in [(100u64, 8usize, 100u64), (100, 8, 99), (100, 8, 101), (100, 8, 50), (256, 8, 256), (7, 8, 200), (300, 16, 299), (300, 8, 100), (1000, 8, 200), (65536, 8, 77), (257, 8, 1)] {
         v.push(SOp::CachedLtFixed(BigUint::from(bound), n, F::from(y)));
     }
+    // (bit_length, limb_size): limb <= 8 is answered by the table, limb > 8 by the wide-limb
+    // branch; remainders 0, 1, 5, 8 (1 and 8 make the overflow unit of the top limb one of the
+    // fault values +2 and +2^8)
+    for (bl, ls) in [(16usize, 8usize), (12, 8), (13, 4), (9, 3), (7, 1), (20, 10), (25, 10), (18, 10), (10, 9), (27, 9), (24, 12), (13, 12), (40, 16), (33, 16)] {
+        v.push(SOp::DecFixed(bl, ls));
+    }
+    for (m, a) in VSHAPES {
+        v.push(SOp::Vec(*m, *a, VKind::Limits));
+        v.push(SOp::Vec(*m, *a, VKind::Pad));
+        v.push(SOp::Vec(*m, *a, VKind::Resize));
+        for n in 0..=*m {
+            v.push(SOp::Vec(*m, *a, VKind::Trim(n)));
+        }
+        for n1 in 1..=(*a + 1).min(*m) {
+            for n2 in 1..=(*a + 1).min(*m - n1) {
+                v.push(SOp::Vec(*m, *a, VKind::Trim2(n1, n2)));
+            }
+        }
+        for split in 0..=*m {
+            v.push(SOp::Vec(*m, *a, VKind::Eq(split)));
+            v.push(SOp::Vec(*m, *a, VKind::EqFixed(split)));
+            v.push(SOp::Vec(*m, *a, VKind::AssertEq(split)));
+            v.push(SOp::Vec(*m, *a, VKind::AssertNeqFixed(split)));
+        }
+    }
     v
 }
 
 pub fn inputs_for(op: &SOp, seed: u64, thorough: bool) -> Vec<Vec<F>> {
+    if let SOp::Vec(m, _a, kind) = op {
+        let el = |i: usize| F::from(1000 + 7 * i as u64);
+        let payload = |len: usize| -> Vec<F> { (0..len).map(el).collect() };
+        return match kind {
+            VKind::Trim(n) => {
+                // every length from n-1 (outside the domain) to M
+                (n.saturating_sub(1)..=*m).map(payload).collect()
+            }
+            VKind::Trim2(n1, n2) => ((n1 + n2).saturating_sub(1)..=*m).map(payload).collect(),
+            VKind::Eq(split) | VKind::EqFixed(split) | VKind::AssertEq(split) | VKind::AssertNeqFixed(split) => {
+                // second payload: equal; first / last / middle element different; one shorter
+                // (prefix); one longer; empty; same length, all different
+                let x = payload(*split);
+                let mut ys: Vec<Vec<F>> = vec![x.clone()];
+                for pos in [0usize, split / 2, split.saturating_sub(1)] {
+                    if pos < *split {
+                        let mut y = x.clone();
+                        y[pos] += F::from(1);
+                        ys.push(y);
+                    }
+                }
+                if *split > 0 {
+                    ys.push(x[..*split - 1].to_vec());
+                    ys.push(x[1..].to_vec());
+                    ys.push(vec![]);
+                    ys.push(x.iter().map(|v| *v + F::from(3)).collect());
+                }
+                if *split < *m {
+                    let mut y = x.clone();
+                    y.push(el(*split));
+                    ys.push(y);
+                    let mut y = x.clone();
+                    y.push(F::from(0));
+                    ys.push(y);
+                }
+                let mut out: Vec<Vec<F>> = vec![];
+                for y in ys {
+                    let t = [x.clone(), y].concat();
+                    if !out.contains(&t) {
+                        out.push(t);
+                    }
+                }
+                out
+            }
+            _ => (0..=*m).map(payload).collect(),
+        };
+    }
+    if let SOp::DecFixed(bl, _) = op {
+        let one = BigUint::one();
+        let top = &one << *bl;
+        let mut v: Vec<BigUint> = vec![&top - &one, BigUint::from(0u32), one.clone(), (&top - &one) / 3u32, top.clone(), &top << 1, &top + &one, (&top << 1) - &one, modulus() - &one];
+        let _ = (seed, thorough);
+        v.dedup();
+        return v.iter().map(|b| vec![from_big(b)]).collect();
+    }
     let bits: Vec<u32> = match op {
         SOp::Bounded(n) | SOp::LtFixed(n, _) | SOp::GtFixed(n, _) | SOp::LeqFixed(n, _) | SOp::GeqFixed(n, _) => vec![*n as u32],
         SOp::Lt(n, m) | SOp::Gt(n, m) | SOp::Leq(n, m) | SOp::Geq(n, m) => vec![*n as u32, *m as u32],
         SOp::CachedLtFixed(_, n, _) => vec![*n as u32],
+        SOp::DecFixed(..) | SOp::Vec(..) => unreachable!(),
     };
     let mut alph: Vec<F> = native_alphabet(&bits, 1, seed, "c04-scratch").into_iter().map(|(_, v)| v).collect();
     // values around the fixed bound
